@@ -305,12 +305,19 @@ pub fn run_workload(prop: &str, sub: u64, acc: &mut Acc, ctx: &Ctx, thorough: bo
         exp2.extend_from_slice(&expected);
         let exp2_code = if (model_has_match(&W { text: pre.clone(), ..w.clone() }) && !first_out.is_empty()) || exp_code == 0 { 0 } else { 1 };
         let mut base: Option<RunOut> = None;
-        for (name, plan) in [("twofiles", vec!["noop=1".to_string()]), ("twofiles+nofstat", vec![format!("fstat_err=/w/doc.txt:{errno}")])] {
+        let mut plans = vec![("twofiles", vec!["noop=1".to_string()]), ("twofiles+nofstat", vec![format!("fstat_err=/w/doc.txt:{errno}")])];
+        if map == "--no-mmap" && w.text.len() > 4 {
+            // the second file is larger when read than the size its stat reported (it grew):
+            // what is read is what is searched
+            plans.push(("twofiles+grew", vec![format!("fstat_size=/w/doc.txt:{}", 1 + rng.below(w.text.len() - 1))]));
+        }
+        for (name, plan) in plans {
             let spec = RunSpec { args: targs.clone(), plan, ..RunSpec::default() };
             let got = ctx.run(&scratch, &spec, 60);
             let got = if targs.iter().any(|a| a == "--stats") { RunOut { stdout: strip_stats(&got.stdout), ..got } } else { got };
             acc.evals += 1;
             acc.faults.add("fstat-of-open-file-fails", got.fired("fstat_err"));
+            acc.faults.add("file-larger-than-its-stat-size", got.fired("fstat_size"));
             acc.faults.inc(&format!("route:{name}{}", if ml { "(-U)" } else { "" }));
             digest = digest_out(digest, &got);
             let body = |other: &RunOut| json!({"engine": "procsim", "kind": "c03", "subseed_workload": sub, "route": name, "run": spec_json(&spec), "input": show(&w.text), "first_file": show(&pre), "expected_by_model": show(&exp2), "other_route": other.to_json(), "observed": got.to_json()});
